@@ -530,6 +530,23 @@ func (u *Unit) coverCheck(st *State, anchor string) {
 	u.obls = append(u.obls, ob)
 }
 
+// coverCond: like coverCheck, but for a condition that must be satisfiable at this point (the
+// antecedent of a guarded assertion: an anchor that lands on the wrong path would otherwise make the
+// assertion hold vacuously).
+func (u *Unit) coverCond(st *State, anchor string, cond T) {
+	if !u.cover || u.dry > 0 {
+		return
+	}
+	base := fmt.Sprintf("%s/cover/%s", u.name, anchor)
+	n := u.oblNames[base]
+	u.oblNames[base] = n + 1
+	ob := &Oblig{Name: fmt.Sprintf("%s#%d", base, n), Kind: "cover", Func: u.name, Cover: true, Goal: "antecedent satisfiable"}
+	ob.Query = fmt.Sprintf("(assert %s)\n(assert %s)", st.reach.S, cond.S)
+	ob.Index = len(u.items)
+	u.items = append(u.items, Item{Kind: "oblig", Ob: ob})
+	u.obls = append(u.obls, ob)
+}
+
 // Script renders the whole unit as one incremental script; cover selects
 // the cover checks instead of the proof obligations.
 func (u *Unit) Script(cover bool) string {
